@@ -27,7 +27,7 @@ REGIMES = {
 
 def zspec(name="z", view="honest", rules=None, relays=None, expect="", dials=False, **fork):
     d = dict(name=name, view=view, rules=rules or [], relays=relays or [], expect=expect, dials=dials,
-             forkAt=0, forkLen=0, badAt=-1, badKind="")
+             forkAt=0, forkLen=0, badAt=-1, badKind="", prefix=0)
     d.update(fork)
     return d
 
@@ -49,6 +49,8 @@ def zlabel(z):
     parts = []
     if z["view"] == "same0":
         parts.append("colluding")
+    elif z["view"] == "honest-prefix":
+        parts.append("prefix%d" % z.get("prefix", 0))
     elif z["view"] == "planted":
         parts.append("serve-planted")
     elif z["view"] == "fork" and z["badAt"] >= 0:
@@ -176,6 +178,27 @@ def catalogue(tier, seed):
         add("post", [zspec(name="z0", relays=[dict(kind="outline-badtxn", when="connected")], expect="ban"),
                      zspec(name="z1", view="planted", expect="ban", dials=True), zspec(name="z2", view="planted", dials=False)], honest=2)
 
+    # ---- ID twin, poison-then-heal: the victim sits on its own fork; the Byzantine peer holds only a PREFIX of the honest
+    # fork (still lighter, at heights <= the victim's tip) and serves it through the AddBlocks path with one v2 block's
+    # body swapped under the honest header (same id).  Stored header-valid, no reorg, no ban.  When the honest peer later
+    # offers the whole (now heaviest) fork the re-delivered honest body must replace the unvalidated twin: the victim
+    # reorgs, and the honest peer is not banned.
+    for kind in ["twin-address", "twin-txns"]:
+        for pos in ([0, 2, 3] if thorough or kind == "twin-address" else [1]):
+            add("mid", [zspec(view="honest-prefix", prefix=4, rules=[dict(rpc="SendV2Blocks", kind=kind, pos=pos)])], victimLen=5, honestLen=8)
+    add("mid", [zspec(view="honest-prefix", prefix=5, rules=[dict(rpc="SendV2Blocks", kind="twin-address", pos=4)], dials=True)], victimLen=5, honestLen=8, honest=2)
+    # co-worker twin: the victim (on its own 120-block fork) downloads the honest 150-block fork from the honest AND the
+    # Byzantine peer in one parallelSync (two 100-block requests, AddBlocks path: require height far above); the twin
+    # sits in the FIRST, still lighter batch, the reorg fails while the honest peer's second batch is being added --
+    # the peer that served the invalid block must be banned, not the one whose batch triggered the reorg.  Which
+    # worker gets which request is the syncer's choice (map order), hence several copies.
+    for j in range(6 if not thorough else 16):
+        add("mid", [zspec(view="honest", rules=[dict(rpc="SendV2Blocks", kind="twin-address", pos=50)], tag="coworker", dials=(j % 2 == 0))],
+            order="together", victimLen=120, honestLen=150, deadline=40000, allow=20, require=400, final=500)
+    if thorough:
+        add("post", [zspec(view="honest-prefix", prefix=4, rules=[dict(rpc="SendV2Blocks", kind="twin-address", pos=1)])], victimLen=5, honestLen=8)
+        add("v1", [zspec(view="honest-prefix", prefix=3, rules=[dict(rpc="SendV2Blocks", kind="twin-address", pos=1)])], victimLen=4, honestLen=18)
+
     # ---- mixes: several Byzantine peers, several honest peers, every connection order
     pool = [zspec(rules=[dict(rpc="SendV2Blocks", kind="mismatch")]), zspec(rules=[dict(rpc="SendHeaders", kind="unlinked", pos=1)]),
             zspec(view="fork", badAt=2, badKind="badtxn"), zspec(rules=[dict(rpc="SendV2Blocks", kind="short")]),
@@ -196,7 +219,8 @@ def catalogue(tier, seed):
 # ------------------------------------------------------------------ legs
 
 def leg_m_jobs(tier):
-    jobs = [("SyncMC", "Sync_byz_plant.cfg", "Sync byzantine plant-then-serve (two Byzantine peers; a rejected block's stored state is not 'validated'): safety + HonestProgress", 4, 900),
+    jobs = [("SyncMC", "Sync_byz_twin.cfg", "Sync byzantine ID twin (honest header, swapped body) served from a lighter fork prefix: healed by honest re-delivery, culprit banned: safety + HonestProgress", 4, 900),
+            ("SyncMC", "Sync_byz_plant.cfg", "Sync byzantine plant-then-serve (two Byzantine peers; a rejected block's stored state is not 'validated'): safety + HonestProgress", 4, 900),
             ("SyncMC", "Sync_byz_quick.cfg", "Sync byzantine (victim + honest + Byzantine peer, 8-block tree): safety + HonestProgress", 6, 1500)]
     if tier == "thorough":
         jobs.append(("SyncMC", "Sync_byz_full.cfg", "Sync byzantine (victim + honest + Byzantine peer, TreeB, all victim positions): safety + HonestProgress", 6, 3000))
@@ -363,7 +387,12 @@ def selftest():
     ok3b = x.exit != 0 and x.violated == "AlwaysValid"
     log("selftest 3 (model that skips ValidateBlock for blocks whose state is already stored violates AlwaysValid): %s" % ("ok" if ok3b else "FAILED"))
     ok3 = ok3 and ok3b
-    for cfg, inv, what in (("Sync_byz_ckptcount_dev.cfg", "NeverPanics", "model whose SendCheckpoint does not check the payout count: the victim process dies"),
+    x = vlib.run_tlc(wd, "SyncMC", "Sync_byz_twin_dev.cfg", workers=4, timeout=900)
+    good = x.exit != 0 and "HonestProgress was violated" in (x.error or "") + x.out
+    log("selftest 3 (model whose AddBlocks skips re-delivered stored blocks at or below the tip: the twin is never healed, HonestProgress violated): %s" % ("ok" if good else "FAILED"))
+    ok3 = ok3 and good
+    for cfg, inv, what in (("Sync_byz_twin_coworker_dev.cfg", "NoHonestBan", "model that bans the peer of the batch being added instead of the peer that served the invalid block"),
+                           ("Sync_byz_ckptcount_dev.cfg", "NeverPanics", "model whose SendCheckpoint does not check the payout count: the victim process dies"),
                            ("Sync_byz_ckptvalue_dev.cfg", "AlwaysValid", "model whose SendCheckpoint does not bind the payout value: pre-validation is void")):
         x = vlib.run_tlc(wd, "SyncMC", cfg, workers=4, timeout=900)
         good = x.exit != 0 and x.violated == inv
